@@ -336,6 +336,60 @@ pub fn run(tier: &str) -> Report {
             rep.sink.extend(check_distinct(pts, pitch, n, ORIENTATIONS[oi].1));
         }
     }
+    // order pass: on ONE fresh thread the depths are visited in a jumping order (never an ascending
+    // sweep), and between computing a centre and locating it a walk of ANOTHER depth and orientation is
+    // made, so that per-thread tables grown per depth and constants remembered from the previous
+    // Hilbert call meet every kind of successor
+    let order_calls = {
+        let tri2 = tri.clone();
+        let quick = tier == "quick";
+        let (calls, vs) = std::thread::spawn(move || {
+            let order: [usize; 29] = [21, 3, 14, 1, 29, 7, 2, 11, 25, 5, 18, 9, 27, 4, 16, 23, 6, 12, 28, 8, 20, 10, 26, 13, 22, 15, 24, 17, 19];
+            let mut out: Vec<Viol> = Vec::new();
+            let mut calls = 0u64;
+            for (k, &n) in order.iter().enumerate() {
+                let other = order[(k + 11) % order.len()];
+                let pos = deep_positions(n);
+                for oi in 0..6 {
+                    for (j, &sp) in pos.iter().take(if quick { 12 } else { 60 }).enumerate() {
+                        let (o, name) = ORIENTATIONS[oi];
+                        let case = json!({"kind": "position", "s": sp, "n": n, "orientation": name});
+                        let c = match centre_of(sp, n, o) {
+                            Ok(c) => c,
+                            Err(e) => {
+                                out.push(viol("C17/panic", e, case));
+                                continue;
+                            }
+                        };
+                        // an unrelated walk in between
+                        let po = deep_positions(other);
+                        let _ = centre_of(po[j % po.len()], other, ORIENTATIONS[(oi + 1 + j) % 6].0);
+                        calls += 3;
+                        if !(rg::signed_dist_convex(&tri2, c) >= -1e-12) {
+                            out.push(viol("C17/centre-in-triangle", format!("centre of position {} at depth {} ({}) lies outside the quintant triangle when depths are visited in a jumping order", sp, n, name), case.clone()));
+                        }
+                        match locate(c, n, o) {
+                            Ok(s2) if s2 == sp => {}
+                            other_r => out.push(viol(
+                                "C17/locate-centre",
+                                format!("locating the centre of position {} at depth {} ({}) right after a walk of depth {} returns {:?}", sp, n, name, other, other_r),
+                                json!({"kind": "position_after", "s": sp, "n": n, "orientation": name, "other_n": other, "other_s": po[j % po.len()], "other_orientation": ORIENTATIONS[(oi + 1 + j) % 6].1}),
+                            )),
+                        }
+                        if out.len() > 8 {
+                            return (calls, out);
+                        }
+                    }
+                }
+            }
+            (calls, out)
+        })
+        .join()
+        .unwrap();
+        rep.sink.extend(vs);
+        calls
+    };
+    rep.set("jumping_order_pass_calls", json!(order_calls));
     // model: conformance, then exploration
     let cn = if tier == "quick" { 8 } else { 10 };
     let (agreed, unbound) = conformance(cn);
@@ -376,6 +430,27 @@ pub fn run(tier: &str) -> Report {
 
 pub fn replay(case: &Value) -> Vec<Viol> {
     let tri = quintant_triangle();
+    if case["kind"] == "position_after" {
+        let name = case["orientation"].as_str().unwrap();
+        let oi = ORIENTATIONS.iter().position(|x| x.1 == name).unwrap();
+        let oj = ORIENTATIONS.iter().position(|x| x.1 == case["other_orientation"].as_str().unwrap()).unwrap();
+        let (sp, n) = (case["s"].as_u64().unwrap(), case["n"].as_u64().unwrap() as usize);
+        let (os, on) = (case["other_s"].as_u64().unwrap(), case["other_n"].as_u64().unwrap() as usize);
+        let case2 = case.clone();
+        return std::thread::spawn(move || {
+            let c = match centre_of(sp, n, ORIENTATIONS[oi].0) {
+                Ok(c) => c,
+                Err(e) => return vec![viol("C17/panic", e, case2)],
+            };
+            let _ = centre_of(os, on, ORIENTATIONS[oj].0);
+            match locate(c, n, ORIENTATIONS[oi].0) {
+                Ok(s2) if s2 == sp => vec![],
+                other => vec![viol("C17/locate-centre", format!("locating the centre of position {} at depth {} right after a walk of depth {} returns {:?}", sp, n, on, other), case2)],
+            }
+        })
+        .join()
+        .unwrap();
+    }
     if case["kind"] == "position" {
         let oi = ORIENTATIONS.iter().position(|x| x.1 == case["orientation"].as_str().unwrap()).unwrap();
         return check_position(case["s"].as_u64().unwrap(), case["n"].as_u64().unwrap() as usize, oi, &tri).1;
